@@ -499,6 +499,13 @@ def dao_fresh(prog: Program) -> RuleResult:
                     if isinstance(tt, ast.Compare) and len(tt.ops) == 1 and isinstance(tt.ops[0], ast.Is) and isinstance(tt.left, ast.Name) and tt.left.id == p \
                             and isinstance(tt.comparators[0], ast.Constant) and tt.comparators[0].value is None:
                         guarded = True
+                # the same guard written the other way round: the return sits behind the false side of `p is not None`
+                false_side = [t.false_succ] if getattr(t, "false_succ", None) is not None else ([x for x in getattr(t, "succ", []) if x != t.true_succ] if isinstance(getattr(t, "stmt", None), ast.If) and not t.stmt.orelse and isinstance(t.stmt.body[-1], (ast.Return, ast.Raise)) else [])
+                if t.kind == "test" and isinstance(t.stmt, ast.If) and false_side and all(cfg.dominates(x, nd.id) for x in false_side):
+                    tt = t.stmt.test
+                    if isinstance(tt, ast.Compare) and len(tt.ops) == 1 and isinstance(tt.ops[0], ast.IsNot) and isinstance(tt.left, ast.Name) and tt.left.id == p \
+                            and isinstance(tt.comparators[0], ast.Constant) and tt.comparators[0].value is None:
+                        guarded = True
             if not guarded:
                 bad = bad or nd
         r.check(bad is None, f"{f.short}#returns-new-collection", site(f, bad.stmt) if bad else site(f), src(bad.stmt) if bad else f"converter of `{p}`",
